@@ -625,9 +625,61 @@ func lockWrapperHeld(p *packages.Package, call *ast.CallExpr) map[string]bool {
 		if len(held) == 0 {
 			return nil
 		}
+		// in the caller's terms: the wrapper's receiver is what the method is called on (s.m under h.withLock is h.m)
+		if fd.Recv != nil && len(fd.Recv.List) == 1 && len(fd.Recv.List[0].Names) == 1 {
+			if se, ok := ast.Unparen(call.Fun).(*ast.SelectorExpr); ok {
+				rn := fd.Recv.List[0].Names[0].Name
+				cn := types.ExprString(se.X)
+				out := map[string]bool{}
+				for k := range held {
+					if strings.HasPrefix(k, rn+".") {
+						k = cn + "." + strings.TrimPrefix(k, rn+".")
+					}
+					out[k] = true
+				}
+				return out
+			}
+		}
 		return held
 	}
 	return nil
+}
+
+// deferredCallsDeep: deferredCalls, plus the calls inside a function literal that a deferred call hands to a lock
+// wrapper of the package (defer s.withLock(func() { … })): the literal runs when the deferred call runs.
+func deferredCallsDeep(p *packages.Package, body *ast.BlockStmt) []*ast.CallExpr {
+	out := deferredCalls(body)
+	ast.Inspect(body, func(n ast.Node) bool {
+		switch n := n.(type) {
+		case *ast.FuncLit:
+			return false
+		case *ast.DeferStmt:
+			if lockWrapperHeld(p, n.Call) != nil {
+				for _, a := range n.Call.Args {
+					if fl, ok := ast.Unparen(a).(*ast.FuncLit); ok {
+						ast.Inspect(fl.Body, func(m ast.Node) bool {
+							if c, ok := m.(*ast.CallExpr); ok {
+								out = append(out, c)
+							}
+							return true
+						})
+					}
+				}
+			}
+			return false
+		}
+		return true
+	})
+	return out
+}
+
+// heldIn: the locks held at node n of the body b (a declared function's body, or a function literal inside one): for
+// a literal, what heldAtDeep finds — its own locks and those of the lock wrappers it is handed to.
+func heldIn(p *packages.Package, b bodyInfo, n ast.Node) map[string]bool {
+	if b.Lit != nil && b.Decl != nil && b.Decl.Body != nil {
+		return heldAtDeep(p, b.Decl, n)
+	}
+	return newFnCFG(b.Body, p.TypesInfo).heldAt(n)
 }
 
 // heldAtDeep: the locks held at node n of fd, where n may sit inside function literals: the locks of the innermost
